@@ -28,7 +28,15 @@ for d in sorted(glob.glob("/verif/seeded/*/")):
         continue
     txt = open(log).read()
     m = re.search(r"demo exit with patch: (\d+)\s+without patch: (\d+)", txt)
-    checks = dict(re.findall(r"check (C\d+) exit (\d+)", txt))
+    # every batch log of this seed, oldest first: the latest status of each property's check wins; the first one is kept too
+    logs = sorted(glob.glob(f"/verif/work/seed*-{name}.log"), key=os.path.getmtime)
+    checks, first = {}, {}
+    for lg in logs:
+        for k, v in re.findall(r"check (C\d+) exit (\d+)", open(lg).read()):
+            first.setdefault(k, v)
+            checks[k] = v
+    if not checks:
+        checks = dict(re.findall(r"check (C\d+) exit (\d+)", txt))
     prop, needs = NEEDS.get(name, (name[:3], "see README.md"))
     meta = dict(
         name=name, breaks_property=prop, needs_to_manifest=needs,
@@ -38,6 +46,7 @@ for d in sorted(glob.glob("/verif/seeded/*/")):
                        how="lib/seedtest.sh: patch applied in the scratch worktree, cargo build (also --features verif), cargo test --workspace --offline, "
                            "demo.sh with and without the patch; then `git -C /repo apply patch.diff`, the quick checks below, `git -C /repo checkout -- .`"),
         quick_check_exit_status={k: int(v) for k, v in checks.items()},
+        quick_check_exit_status_when_first_tried={k: int(v) for k, v in first.items()},
         detected_by=[k for k, v in checks.items() if v == "1"],
     )
     json.dump(meta, open(os.path.join(d, "meta.json"), "w"), indent=1)
